@@ -1052,6 +1052,22 @@ def m_arrayvec_new(ctx, args):
     return ("arrayvec", ("array", ()), None)
 
 
+def _slice_obligation(ctx, v, lo, hi):
+    """`&v[lo..hi]` panics unless lo <= hi <= len(v)."""
+    eng = ctx.eng
+    n = vec_len(eng, v)
+    t = ctx.arg_ty(0)
+    if n is None and t is not None:
+        inner = strip_refs(t)
+        if inner[0] == "array":
+            n = inner[2]
+    if lo[0] == "int" and (hi is None or hi[0] == "int") and isinstance(n, int) and 0 <= lo[1] <= (n if hi is None else hi[1]) <= n:
+        return
+    eng.obligations.append({
+        "kind": "SliceRange", "pc": ctx.st.pc, "cond": None, "expected": None, "ops": [v, lo, hi], "len": n,
+        "site": ctx.site, "ln": ctx.term["ln"], "callpath": ctx.fr.callpath, "exp": ctx.term["exp"]})
+
+
 @model("std::ops::Index::index", "std::ops::IndexMut::index_mut")
 def m_index(ctx, args):
     eng = ctx.eng
@@ -1060,10 +1076,13 @@ def m_index(ctx, args):
     v, through_ref, mr = array_like(ctx, base)
     if idx[0] == "struct" and idx[1].endswith("Range"):
         lo, hi = idx[3][0], idx[3][1]
+        _slice_obligation(ctx, v, lo, hi)
         return ("refv", ("slice_of", v, lo, hi))
     if idx[0] == "struct" and idx[1].endswith("RangeTo"):
+        _slice_obligation(ctx, v, ("int", 0), idx[3][0])
         return ("refv", ("slice_of", v, ("int", 0), idx[3][0]))
     if idx[0] == "struct" and idx[1].endswith("RangeFrom"):
+        _slice_obligation(ctx, v, idx[3][0], None)
         return ("refv", ("slice_of", v, idx[3][0], ("end",)))
     n = vec_len(eng, v)
     t = ctx.arg_ty(0)
